@@ -7,8 +7,8 @@ from . import geom
 
 SPEC = dict(
     technique='Lean 4 proof (q2r homomorphism, double cover, r2q∘q2r = ±id on all 40 branches, embeddings, class delegation; regenerated model) + float monitor of the converse maps',
-    lean_modules=['SmVerif.Props.C04', 'SmVerif.Props.Delegation', 'SmVerif.Props.UQOps'],
-    groups=['Quaternions', 'Quats', 'Poses'],
+    lean_modules=['SmVerif.Props.C04', 'SmVerif.Props.Delegation', 'SmVerif.Props.UQOps', 'SmVerif.Props.Multi'],
+    groups=['Quaternions', 'Quats', 'Poses', 'Multi'],
     expected_untranslatable=('UQ_interp', 'UQ_interp_shortest'),
     partial=['r2q is proved to invert q2r up to the overall sign for exact unit quaternions (every branch); r2q on rounded matrices, twist and dual-quaternion routes are explored'],
     assumptions=['agreement is compared at 1e-6 on generated inputs only'],
@@ -140,6 +140,27 @@ def _impl(tier, seed, search):
         ok, r = L.noraise('EulerVec', lambda: (SO3.EulerVec(w).A, SE3.EulerVec(w).A[:3, :3], UnitQuaternion.EulerVec(w).R, SO3.Exp(w).A), dict(w=w), 'EulerVec / Exp constructors')
         if ok:
             L.close('EulerVec:SE3', r[1], r[0], TOL, 1.0, dict(w=w)); L.close('EulerVec:UQ', r[2], r[0], TOL, 1.0, dict(w=w)); L.close('EulerVec:Exp', r[3], r[0], TOL, 1.0, dict(w=w))
+        # the quaternion exponential of half the rotation vector is the same rotation
+        from spatialmath import Quaternion as Q_
+        ok, r = L.noraise('Quaternion.exp', lambda: (np.asarray(Q_.Pure(w / 2).exp().vec, float), np.asarray(UnitQuaternion.EulerVec(w).vec, float)), dict(w=w), 'Quaternion.Pure(w/2).exp()')
+        if ok:
+            L.close('exp(pure w/2)=EulerVec(w)', b.q2r(r[0] / np.linalg.norm(r[0])), b.q2r(r[1]), TOL, 1.0, dict(w=w), what='the quaternion exponential of w/2 and UnitQuaternion.EulerVec(w) are different rotations', sig='Quaternion.exp')
+            L.close('exp(pure):unit', float(np.linalg.norm(r[0])), 1.0, TOL, 1.0, dict(w=w), sig='Quaternion.exp')
+        # conversion commutes with inversion on sequences too: (A.inv())[i] = A[i].inv() in every representation
+        if i % 4 == 2:
+            Ts_ = [np.block([[rot_near(g)[0], inputs.translation(g).reshape(3, 1)], [np.zeros((1, 3)), np.ones((1, 1))]]) for _ in range(3)]
+            def multi_inv():
+                A_ = SE3(Ts_, check=False); Ai = A_.inv()
+                Aq = UnitQuaternion([b.r2q(T_[:3, :3]) for T_ in Ts_]); Aqi = Aq.inv()
+                return [np.asarray(x_, float) for x_ in Ai.data], [np.linalg.inv(T_) for T_ in Ts_], [np.asarray(x_, float) for x_ in (Ai * A_).data], [b.q2r(np.asarray(x_, float)) for x_ in Aqi.data]
+            ok, r = L.noraise('inv(multi)', multi_inv, dict(Ts=Ts_), 'inverse of multi-valued SE3 / UnitQuaternion')
+            if ok and len(r[0]) == 3:
+                for k_ in range(3):
+                    sc_ = max(1.0, geom.tmag(r[1][k_]))
+                    L.close('SE3[M].inv', r[0][k_], r[1][k_], TOL, sc_, dict(k=k_, T=Ts_[k_]), what='element of the inverse of a multi-valued SE3 is not the inverse of the element', sig='inv(multi)')
+                    L.close('SE3[M].inv*A', r[2][k_], np.eye(4), TOL, sc_ ** 2, dict(k=k_, T=Ts_[k_]), sig='inv(multi)')
+                    L.close('UQ[M].inv', r[3][k_], Ts_[k_][:3, :3].T, TOL, 1.0, dict(k=k_), sig='inv(multi)')
+            elif ok: L.check('inv(multi):len', False, dict(Ts=Ts_), 'inverse of a 3-valued SE3 does not hold 3 values', sig='inv(multi)')
         # the same constructors on the zero rotation vector and on magnitudes around the library's zero thresholds (10 and 100 eps)
         wz = ax * (0.0, 1e-17, 1e-15, 3e-15, 1e-14, 5e-14, 1e-12)[i % 7]
         for nm_, f_ in (('SO3.EulerVec', lambda: SO3.EulerVec(wz).A), ('SE3.EulerVec', lambda: SE3.EulerVec(wz).A[:3, :3]), ('UQ.EulerVec', lambda: UnitQuaternion.EulerVec(wz).R),
